@@ -187,9 +187,17 @@ class Engine:
 		for ax in e.axioms:
 			fnctx = FnCtx.synthetic(self, f'axiom:{name}')
 			st = State()
+			qs = []
+			if isinstance(ax, tuple):
+				vars_, ax = ax
+				for vn, vt in vars_.items():
+					ty = self.tenv.parse(vt)
+					c = z3.Const(fresh_name(f'ax_{vn}'), ty.sort())
+					st.env[vn] = Val(ty, c)
+					qs.append(c)
 			ev = Ev(self, fnctx, st, Oracle([]), mode='spec')
 			t = ev.truth(ast.parse(ax, mode='eval').body)
-			self.used_axioms.append(t)
+			self.used_axioms.append(z3.ForAll(qs, t) if qs else t)
 
 
 def _root_name(n: ast.expr) -> str | None:
@@ -260,6 +268,9 @@ class FnCtx:
 				self.loop_ord[id(n)] = i
 		self.ret_ty: Ty | None = None
 		self.local_funcs: dict[str, ast.FunctionDef] = {}
+		self.dyn: str | None = (contract.dispatch if contract is not None and contract.dispatch else self.cname)
+		if contract is not None and contract.dispatch:
+			self.label += f'@{contract.dispatch}'
 
 	@classmethod
 	def synthetic(cls, eng: Engine, label: str, prop: str = '-') -> 'FnCtx':
@@ -271,17 +282,18 @@ class FnCtx:
 class Ev:
 	"""Expression evaluator over a State.  Nondeterminism (exceptional exits, multi-path inlined callees) goes through the oracle."""
 
-	def __init__(self, eng: Engine, fn: FnCtx, st: State, oracle: Oracle, mode: str = 'code', old: State | None = None, guards: list[Any] | None = None):
+	def __init__(self, eng: Engine, fn: FnCtx, st: State, oracle: Oracle, mode: str = 'code', old: State | None = None, guards: list[Any] | None = None, prev: State | None = None):
 		self.eng = eng
 		self.fn = fn
 		self.st = st
 		self.oracle = oracle
 		self.mode = mode  # code | spec (contract/spec text: total, no exits)
 		self.old = old
+		self.prev = prev
 		self.guards: list[Any] = guards or []
 
 	# ---------------------------------------------------------------- helpers
-	def exit_if(self, cond: Any, excname: str) -> None:
+	def exit_if(self, cond: Any, excname: str, on_exit: Callable[[], None] | None = None) -> None:
 		"""Register an exceptional exit: the current path continues under `not cond`."""
 		if self.mode == 'spec':
 			return
@@ -295,6 +307,8 @@ class Ev:
 		c = self.oracle.choose(2)
 		if c == 1:
 			self.st.assume(full)
+			if on_exit is not None:
+				on_exit()
 			raise RaiseSignal(ExcVal(None, cname=excname))
 		self.st.assume(z3.Not(full))
 
@@ -368,6 +382,11 @@ class Ev:
 			return z3.BoolVal(isinstance(a, ClassRef) and isinstance(b, ClassRef) and a.cname == b.cname)
 		if a.is_conc() and b.is_conc():
 			return z3.BoolVal(a.conc == b.conc)
+		if a.ty == b.ty and isinstance(a.ty, TDict):
+			t = a.ty
+			k = z3.Const(fresh_name('eqk'), t.key.sort())
+			return z3.ForAll([k], z3.And(z3.Select(t.dom(a.term), k) == z3.Select(t.dom(b.term), k),
+				z3.Implies(z3.Select(t.dom(a.term), k), z3.Select(t.vals(a.term), k) == z3.Select(t.vals(b.term), k))))
 		if a.ty == b.ty:
 			return a.term == b.term
 		for x, y in ((a, b), (b, a)):
@@ -529,7 +548,14 @@ class Ev:
 			# property or method of the record's class
 			rec = REG.records.get(base.ty.rname)
 			if rec and rec.source:
-				f = source.find_method(rec.source[0], rec.source[1], attr)
+				f = None
+				private = attr.startswith('__') and not attr.endswith('__')
+				if private and self.fn.cname and self.fn.src is not None:
+					f = source.load(self.fn.src.file).funcs.get(f'{self.fn.cname}.{attr}')  # name-mangled: static class only
+				elif self.fn.dyn and self.fn.src is not None and self.fn.src.file == rec.source[0]:
+					f = source.find_method(rec.source[0], self.fn.dyn, attr)
+				if f is None:
+					f = source.find_method(rec.source[0], rec.source[1], attr)
 				if f is not None:
 					if f.kind == 'property':
 						return self.call_function(f, [base], {}, recv=base, recv_name=None, node=n)
@@ -599,8 +625,12 @@ class Ev:
 				return (x, yy) if not sw else (yy, x)
 			except EngineError:
 				pass
-		if isinstance(a.ty, TOpt) and a.ty.inner == b.ty:
-			return self.unwrap(a), b
+		if isinstance(a.ty, TNone) and b.ty is not None and not isinstance(b.ty, TOpt):
+			ot = TOpt(b.ty)
+			return self.coerce(a, ot), self.coerce(b, ot)
+		if isinstance(b.ty, TNone) and a.ty is not None and not isinstance(a.ty, TOpt):
+			ot = TOpt(a.ty)
+			return self.coerce(a, ot), self.coerce(b, ot)
 		raise EngineError(f'cannot unify {a.ty} and {b.ty}')
 
 	def e_IfExp(self, n: ast.IfExp) -> Val:
@@ -793,7 +823,10 @@ class Ev:
 				concs.append(p.value)
 			else:
 				assert isinstance(p, ast.FormattedValue)
-				v = self.to_str(self.eval(p.value))
+				try:
+					v = self.to_str(self.eval(p.value))
+				except EngineError:
+					v = self.eng.fresh(STR, 'repr')  # an unmodelled value inside a message: any string
 				parts.append(v.term)
 				if v.is_conc():
 					concs.append(v.conc)
